@@ -831,3 +831,52 @@ def rule_consts(ctx, R):
 
 
 RULES.append(("C05.CONSTS", "the constants and predicates the arithmetic is written in: one, zero, is_zero, is_pos, to_int (and Num's one, zero, nan, from_num)", rule_consts))
+
+
+def rule_normalise(ctx, R):
+    """shrink_to_fit as a decision table of one loop step: a trailing limb is removed exactly when it is zero and
+    not the only limb (so zero keeps its single 0 limb and nothing non-zero is ever dropped)"""
+    from . import evalo
+    from .paths import PathOriginsOv
+    fb = ctx.fb
+    b = fb.bodies.get(B + "shrink_to_fit")
+    if not R.anchor(b is not None, "shrink_to_fit", "BigNum::shrink_to_fit"):
+        return
+    R.analyse(b.name)
+    cfg = normal_cfg(b)
+    heads = sorted({h for (_, h) in cfg.back_edges()})
+    if not R.anchor(len(heads) == 1, "shrink:loop", "the normalisation loop"):
+        return
+    head = heads[0]
+    blocks = set()
+    for be in cfg.back_edges():
+        blocks |= cfg.natural_loop(be)
+    LAST, LEN = "[T]::last(P1.val)", "Vec::len(P1.val)"
+    domain = {}
+    for last in (None, 0, 7):
+        for ln in (1, 2, 5):
+            if last is None and ln != 1:
+                continue
+            domain["last=%s,len=%d" % (last, ln)] = {LAST: ("opt", last), LEN: (0 if last is None else ln)}
+
+    def roles_of_path(p):
+        return Roles(b, fb, param_roles=PR(b), org=PathOriginsOv(b, fb, p))
+
+    def events_of(bi, t, roles):
+        n = callee_name(t["f"], fb)
+        if n == "std::vec::Vec::pop":
+            return "POP(%s)" % roles.of_operand(t["args"][0], bi)
+        if n.rsplit("::", 1)[-1] in ("truncate", "remove", "clear", "push", "insert"):
+            return "OTHER(%s)" % n.rsplit("::", 1)[-1]
+        return None
+
+    got = evalo.step_table(b, fb, roles_of_path, head, blocks, domain, events_of)
+    want = {}
+    for name, env in domain.items():
+        last, ln = env[LAST][1], env[LEN]
+        want[name] = {(("POP(P1.val)",), "loop")} if (last == 0 and ln > 1) else {((), "exit")}
+    bad = {k: sorted(map(str, v)) for k, v in got.items() if v != want[k]}
+    R.check(not bad, "normalise:shrink_step", "one step of shrink_to_fit pops the last limb exactly when it is 0 and there is more than one limb; otherwise the loop ends", b.span, bad)
+
+
+RULES.append(("C05.NORMALISE", "shrink_to_fit: decision table of one loop step over (last limb, number of limbs)", rule_normalise))
